@@ -671,6 +671,24 @@ impl Node {
         }
     }
 
+    /// every look-behind body (each alternative of a top-level alternation) has a fixed length by its syntax alone
+    pub fn all_lookbehinds_syntactically_fixed(&self) -> bool {
+        let here = match self {
+            Look(b, true, _) => {
+                let mut body: &Node = b;
+                while let Flags(_, _, c) = body {
+                    body = c;
+                }
+                match body {
+                    Alt(v) => v.iter().all(|a| a.fixed_char_len().is_some()),
+                    other => other.fixed_char_len().is_some(),
+                }
+            }
+            _ => true,
+        };
+        here && self.children().iter().all(|c| c.all_lookbehinds_syntactically_fixed())
+    }
+
     /// F25 class: a counted repeat (upper bound >= 2) over a body that can match the empty string, nested inside
     /// another repeat that can iterate at least twice: the VM retries every number of empty iterations on every level
     pub fn has_nested_counted_nullable_repeat(&self) -> bool {
